@@ -163,3 +163,20 @@ package verifspec
 //@   ensures result == nil ==> forall(i, 0, len(deps), deps[i] != nil && has(paths, deps[i].ImportPath) && paths[key(deps[i].ImportPath)])
 //@   ensures result == nil ==> all(p, has(paths, p) && paths[p] ==> 0 <= pos(p) && pos(p) < len(deps) && key(deps[pos(p)].ImportPath) == p)
 //@   ensures result == nil ==> forall2(i, m, 0 <= i && i < len(deps) && 0 <= m && m < len(deps[i].Imports) ==> len(deps[i].Imports[m]) >= 0 && exists(j, 0, i, key(deps[j].ImportPath) == key(deps[i].Imports[m])))
+
+// ImportDependencies itself: starts from empty tables (the invariant of the closure holds trivially), collects "runtime"
+// and then every import of the given archive, and appends the archive last: in the result every archive comes after all
+// archives it imports (given importPkg(p).ImportPath == p, as above), and the given archive is the last one.
+//@ func compiler.ImportDependencies
+//@ property C10
+//@   panics_only_if true
+//@   results list err
+//@   requires archive != nil
+//@   oncall collectDependencies: contract compiler.ImportDependencies#lit1
+//@   loop 2 invariant 0 <= $i2 && $i2 <= len(archive.Imports) && !isnil(paths)
+//@   loop 2 invariant forall(i, 0, len(deps), deps[i] != nil && has(paths, deps[i].ImportPath) && paths[key(deps[i].ImportPath)])
+//@   loop 2 invariant all(p, has(paths, p) && paths[p] ==> 0 <= pos(p) && pos(p) < len(deps) && key(deps[pos(p)].ImportPath) == p)
+//@   loop 2 invariant forall2(i, m, 0 <= i && i < len(deps) && 0 <= m && m < len(deps[i].Imports) ==> len(deps[i].Imports[m]) >= 0 && exists(j, 0, i, key(deps[j].ImportPath) == key(deps[i].Imports[m])))
+//@   loop 2 invariant forall(m, 0, $i2, len(archive.Imports[m]) >= 0 && has(paths, archive.Imports[m]) && paths[key(archive.Imports[m])])
+//@   ensures err == nil ==> len(list) > 0 && list[len(list) - 1] == archive
+//@   ensures err == nil ==> forall2(i, m, 0 <= i && i < len(list) && 0 <= m && m < len(list[i].Imports) ==> len(list[i].Imports[m]) >= 0 && exists(j, 0, i, key(list[j].ImportPath) == key(list[i].Imports[m])))
